@@ -179,6 +179,20 @@ static Verdict run(const Case &c) {
         if (!e.empty()) v.fail(e);
         else if (begun && r > 0 && (ni2 < ni || iv2 < iv)) v.fail(fmt("not monotone: r=%llu gives Ni=%llu/interval %llu ms, r=%llu gives Ni=%llu/interval %llu ms", (unsigned long long)r, (unsigned long long)ni, (unsigned long long)iv, (unsigned long long)r2, (unsigned long long)ni2, (unsigned long long)iv2));
     }
+    // the result is a function of THIS block's count alone: the same automaton - and a second one next to it - evaluated right afterwards
+    // with the count that shares the low 16 bits, and with the same count again, gives what the formula says for those counts
+    if (v.ok && begun && r >= 65536) {
+        void *en2 = br_init_enumeration();
+        uint64_t ni3, iv3;
+        for (void *b : {band, br_aut_extra(en2)})
+            for (uint64_t r3 : {r & 0xFFFF, r}) {
+                if (!v.ok) break;
+                e = step(b, r3, begun, prior, now, &ni3, &iv3);
+                if (!e.empty()) v.fail("after a block with r=" + std::to_string(r) + ": " + e);
+            }
+        br_automata_destroy(en2);
+        v.cls("followed-by-the-count-with-the-same-low-16-bits");
+    }
     br_automata_destroy(en);
     v.nontrivial = r > 0 && begun;
     if (v.nontrivial) v.cls(r >= 9770 ? "formula-branch-r>=9770" : "formula-branch");
@@ -257,6 +271,7 @@ int main(int argc, char **argv) {
     for (uint64_t j = 1; j < 65536; j += 257) for (int d = -1; d <= 1; d++) rs.push_back((j * 65536 + d) & 0xFFFFFFFFu);
     for (uint64_t j = 1; j < 65536; j += 2) rs.push_back(j << 16);
     rs.push_back(0xFFFFFFFFu); rs.push_back(0xFFFFFFFEu);
+    for (uint64_t j : {1u, 2u, 3u, 255u, 256u, 0x7FFFu, 0x8000u, 0xFFFFu}) for (uint64_t x = 1; x <= 16; x++) rs.push_back((j << 16) + x);   // j * 2^16 + a small count
     uint64_t x = a.seed * 0x9E3779B97F4A7C15ULL + 7;
     for (int i = 0; i < 100000; i++) { x ^= x << 13; x ^= x >> 7; x ^= x << 17; rs.push_back(x & 0xFFFFFFFFu); }
     std::vector<uint64_t> priors = {45, 46, 9999, 10000, 45 + (a.seed * 7919) % 9955};
